@@ -961,3 +961,39 @@ def inject(toks, anchor, text, where, nth, au, lo=0, hi=None):
     toks[pos:pos] = ins
     au.note("I", f"{where} `{anchor}`")
     return pos
+
+
+WRAPPERS = [["Arc", ":", ":", "new"], ["tokio", ":", ":", "sync", ":", ":", "Mutex", ":", ":", "new"], ["RwLock", ":", ":", "new"],
+            ["tokio", ":", ":", "sync", ":", ":", "RwLock", ":", ":", "new"], ["std", ":", ":", "sync", ":", ":", "Arc", ":", ":", "new"]]
+ATOMICS = ("AtomicBool", "AtomicU8", "AtomicU32", "AtomicU64", "AtomicUsize")
+
+
+def strip_wrappers(e):
+    """Arc::new(X) / Mutex::new(X) / RwLock::new(X) -> X ;  [std::sync::atomic::]AtomicT::new(V) -> AtomicT { v: V }"""
+    changed = True
+    while changed:
+        changed = False
+        txt = [t.text for t in e]
+        for w in WRAPPERS:
+            n = len(w)
+            if txt[:n] == w and len(e) > n and is_p(e[n], "(") and match_close(e, n) == len(e) - 1:
+                e = e[n + 1:-1]
+                changed = True
+                break
+        if changed:
+            continue
+        # atomic constructor
+        k = 0
+        if txt[:9] == ["std", ":", ":", "sync", ":", ":", "atomic", ":", ":"]:
+            k = 9
+        if len(txt) > k + 4 and txt[k] in ATOMICS and txt[k + 1:k + 4] == [":", ":", "new"] and is_p(e[k + 4], "(") and match_close(e, k + 4) == len(e) - 1:
+            inner = e[k + 5:-1]
+            e = [Tok("id", txt[k], ""), Tok("p", "{", " "), Tok("id", "v", " "), Tok("p", ":", "")] + [_w(x, " " if q == 0 else x.ws) for q, x in enumerate(inner)] + [Tok("p", "}", " ")]
+    return e
+
+
+def _fix_ws(ts):
+    for a, b in zip(ts, ts[1:]):
+        if b.ws == "" and a.kind in ("id", "num") and b.kind in ("id", "num"):
+            b.ws = " "
+    return ts
